@@ -146,8 +146,11 @@ class Mailbox:
         # if the nameplate is still allocated we'll get a foreign-key
         # failure when trying to delete the mailbox, so get rid of
         # those first
-        db.execute("DELETE FROM `nameplate_sides` WHERE `side`=?",
-                   (side,))
+        np_rows = db.execute("SELECT * FROM `nameplates` WHERE `mailbox_id`=?",
+                             (self._mailbox_id,)).fetchall()
+        for np_row in np_rows:
+            db.execute("DELETE FROM `nameplate_sides` WHERE `nameplates_id`=?",
+                       (np_row["id"],))
         db.execute("DELETE FROM `nameplates` WHERE `mailbox_id`=?",
                    (self._mailbox_id,))
         # remove mailbox content
